@@ -2,6 +2,7 @@
 mod common;
 mod models;
 mod pbuilder;
+mod sepmodel;
 
 use common::Out;
 use std::io::Write;
@@ -42,6 +43,8 @@ fn main() {
     let mut out = Out::new();
     match stream.as_str() {
         "pbuilder" => pbuilder::stream(&mut out, seed, thorough),
+        "mbuilder" => sepmodel::stream_mbuilder(&mut out, seed, thorough),
+        "model" => sepmodel::stream_model(&mut out, seed, thorough),
         _ => {
             eprintln!("unknown stream {}", stream);
             std::process::exit(2);
